@@ -9,7 +9,9 @@ EXTENDS DataUrl, Pct, Vocab, TLC, Json
 CONSTANTS MaxSuffix
 
 Composed == {p \o m \o x \o c \o d : p \in VDataPrefix, m \in VDataMedia, x \in VDataMid, c \in VDataComma, d \in VDataData}
-SufAlpha == {97, 59, 44, 98, 47, 35, 65, 61, 54}
+ComposedLong == {DATA \o m \o x \o <<44>> \o d : m \in VDataMediaLong, x \in {<<>>, <<59, 98, 97, 115, 101, 54, 52>>},
+                                                    d \in {<<81, 85, 74, 68>>, <<97, 44, 98>>, <<>>}}
+SufAlpha == {97, 59, 44, 98, 47, 35, 65, 61, 54, 37, 58}
 
 VARIABLES w, n, mode
 vars == <<w, n, mode>>
@@ -25,7 +27,7 @@ Expect(t) ==
     ELSE [k |-> "data", w |-> t, ok |-> FALSE, media |-> NULL, b64 |-> FALSE, data |-> <<>>, dec |-> "none", bytes |-> <<>>]
 
 Init == w = <<>> /\ n = 0 /\ mode = "start"
-PickComposed == mode = "start" /\ w' \in Composed /\ n' = 0 /\ mode' = "composed" /\ PrintT(ToJson(Expect(w')))
+PickComposed == mode = "start" /\ w' \in Composed \cup ComposedLong /\ n' = 0 /\ mode' = "composed" /\ PrintT(ToJson(Expect(w')))
 PickPrefix == mode = "start" /\ w' \in {DATA, <<100, 97, 116, 58>>, <<68, 65, 84, 65, 58>>} /\ n' = 0 /\ mode' = "grow"
               /\ PrintT(ToJson(Expect(w')))
 Grow == /\ mode = "grow" /\ n < MaxSuffix
